@@ -725,3 +725,228 @@ Proof.
   induction ss as [|s ss IH]; intros [|s' ss'] H; try discriminate H; [reflexivity|].
   cbn [map] in H. injection H as -> H. f_equal. apply IH. exact H.
 Qed.
+
+(* ---------- end to end: a link run of a paragraph record is yielded ---------- *)
+Lemma mapM_In {A B} (f : A -> res B) : forall l ys x,
+  mapM f l = Ok ys -> In x l -> exists y, f x = Ok y /\ In y ys.
+Proof.
+  intros l ys x H. apply mapM_Forall2 in H.
+  induction H as [|x0 y0 l ys Hxy F IH]; intros Hin; [destruct Hin|].
+  destruct Hin as [->|Hin].
+  - exists y0. split; [exact Hxy|left; reflexivity].
+  - destruct (IH Hin) as (y & Ey & Hy). exists y. split; [exact Ey|right; exact Hy].
+Qed.
+
+Lemma run_toks_unstyled : forall r, r_style r = [] -> run_toks r = Ok (r_toks r).
+Proof.
+  intros [st ts] H. cbn [r_style] in H. subst st. unfold run_toks. cbn [r_toks r_style].
+  destruct ts as [|t ts]; [reflexivity|].
+  unfold close_toks. cbn [rev mapM bind map app]. rewrite app_nil_r. reflexivity.
+Qed.
+
+(* an unstyled non-empty run is one of the run strings of its paragraph *)
+Lemma unstyled_run_string : forall html p rs r,
+  par_run_strings html p = Ok rs -> In r (p_runs p) ->
+  r_style r = [] -> r_toks r <> [] -> In (render html (r_toks r)) rs.
+Proof.
+  intros html p rs r H Hin Hst Hne. unfold par_run_strings in H.
+  apply bind_inv in H. destruct H as (tss & Et & H). injection H as <-.
+  apply in_map. unfold par_run_toks in Et.
+  apply bind_inv in Et. destruct Et as (rs0 & E0 & Et).
+  destruct (mapM_In _ _ _ _ E0 Hin) as (ts & Ets & Hts).
+  rewrite (run_toks_unstyled r Hst) in Ets. injection Ets as <-.
+  assert (Hf : In (r_toks r) (filter nonempty rs0)).
+  { apply filter_In. split; [exact Hts|]. destruct (r_toks r); [contradiction Hne; reflexivity|reflexivity]. }
+  destruct (p_hstyle p) as [|h hs].
+  - injection Et as <-. exact Hf.
+  - apply bind_inv in Et. destruct Et as (cl & _ & Et). injection Et as <-.
+    right. apply in_or_app. left. exact Hf.
+Qed.
+
+Lemma map_RA_inj {A} : forall (l1 l2 : list A), map (@RA A) l1 = map RA l2 -> l1 = l2.
+Proof.
+  induction l1 as [|x l1 IH]; intros [|y l2] H; try discriminate H; [reflexivity|].
+  cbn [map] in H. injection H as -> H. f_equal. apply IH. exact H.
+Qed.
+
+(* C10, end to end: the link helper yields the (href, text) pair of a link
+   run (MarkerFacts.link_is_one_run: style [], tokens link_toks link body) of
+   any paragraph record of the document, when the text has no angle bracket *)
+Theorem get_links_yields_link : forall a l pars ps p link body,
+  get_links a = Ok l ->
+  document_pars a default_opts = Ok pars -> iter_at_depth pars 4%nat = Ok (map RA ps) ->
+  In p ps ->
+  In {| r_style := []; r_toks := link_toks link body |} (p_runs p) ->
+  link <> [] -> ~ In 34 link -> render false body <> [] -> ~ In 60 (render false body) ->
+  In (link, render false body) l.
+Proof.
+  intros a l pars ps p link body H Ep Ei Hp Hr Hl Nl Hb Nb.
+  apply get_links_of_pars in H. destruct H as (pars' & ps' & rss & Ep' & Ei' & Ers & ->).
+  rewrite Ep in Ep'. injection Ep' as <-. rewrite Ei in Ei'. injection Ei' as Ei'.
+  apply map_RA_inj in Ei'. subst ps'.
+  destruct (mapM_In _ _ _ _ Ers Hp) as (rs & Ers' & Hrs).
+  apply filter_map_In. exists (render false (link_toks link body)). split.
+  - apply in_concat. exists rs. split; [exact Hrs|].
+    apply (unstyled_run_string false p rs _ Ers' Hr); [reflexivity|].
+    cbn [r_toks]. unfold link_toks. discriminate.
+  - apply link_match_rendered_link_gen; assumption.
+Qed.
+
+(* and conversely nothing with an angle bracket in the text or a quote in the
+   target is ever yielded *)
+Theorem get_links_pairs_clean : forall a l h t, get_links a = Ok l -> In (h, t) l ->
+  h <> [] /\ ~ In 34 h /\ t <> [] /\ ~ In 60 t.
+Proof.
+  intros a l h t H Hin. apply get_links_complete in H. destruct H as (ss & _ & ->).
+  apply filter_map_In in Hin. destruct Hin as (r & _ & E).
+  exact (link_match_groups r h t E).
+Qed.
+
+(* ================================================================== *)
+(* 6. get_headings                                                      *)
+(* ================================================================== *)
+Definition heading_opts : opts := {| o_html := true; o_dup := true |}.
+Definition is_heading (p : par) : bool := heading_match (p_style p).
+
+Definition heading_step (acc : list (list str)) (it : rose par) : res (list (list str)) :=
+  match it with
+  | RA p => if heading_match (p_style p)
+            then rs <- par_run_strings true p ;; Ok (acc ++ [rs])
+            else Ok acc
+  | RL _ => Err AttributeError
+  end.
+
+Lemma get_headings_unfold : forall a,
+  get_headings a = (pars <- document_pars a heading_opts ;;
+                    its <- iter_at_depth pars 4%nat ;; foldM heading_step its []).
+Proof. reflexivity. Qed.
+
+Lemma heading_fold : forall its acc l,
+  foldM heading_step its acc = Ok l <->
+  exists ps l', its = map RA ps
+                /\ mapM (par_run_strings true) (filter is_heading ps) = Ok l'
+                /\ l = acc ++ l'.
+Proof.
+  induction its as [|it its IH]; intros acc l; cbn [foldM].
+  - split.
+    + intros [= <-]. exists [], []. repeat split. rewrite app_nil_r. reflexivity.
+    + intros (ps & l' & E & Em & ->). destruct ps; [|discriminate E].
+      cbn [filter mapM] in Em. injection Em as <-. rewrite app_nil_r. reflexivity.
+  - destruct it as [x|p]; cbn [heading_step bind].
+    + split; [discriminate|]. intros (ps & _ & E & _). destruct ps; discriminate E.
+    + split.
+      * intros H. destruct (heading_match (p_style p)) eqn:Eh.
+        -- destruct (par_run_strings true p) as [rs|e] eqn:Ers; cbn [bind] in H; [|discriminate H].
+           apply IH in H. destruct H as (ps & l' & -> & Em & ->).
+           exists (p :: ps), (rs :: l'). split; [reflexivity|]. split.
+           ++ cbn [filter]. unfold is_heading at 1. rewrite Eh. cbn [mapM]. rewrite Ers, Em. reflexivity.
+           ++ rewrite <- app_assoc. reflexivity.
+        -- cbn [bind] in H. apply IH in H. destruct H as (ps & l' & -> & Em & ->).
+           exists (p :: ps), l'. split; [reflexivity|]. split; [|reflexivity].
+           cbn [filter]. unfold is_heading at 1. rewrite Eh. exact Em.
+      * intros (ps & l' & E & Em & ->). destruct ps as [|p0 ps]; [discriminate E|].
+        cbn [map] in E. injection E as <- ->. cbn [filter] in Em. unfold is_heading at 1 in Em.
+        destruct (heading_match (p_style p)) eqn:Eh.
+        -- cbn [mapM] in Em. apply bind_inv in Em. destruct Em as (rs & Ers & Em).
+           apply bind_inv in Em. destruct Em as (l'' & Em & H). injection H as <-.
+           rewrite Ers. cbn [bind]. apply IH. exists ps, l''. split; [reflexivity|].
+           split; [exact Em|]. rewrite <- app_assoc. reflexivity.
+        -- cbn [bind]. apply IH. exists ps, l'. repeat split. exact Em.
+Qed.
+
+(* the result is, in order, the run strings (html on) of exactly the records
+   at depth 4 of document_pars whose style id matches Heading\d *)
+Theorem get_headings_spec : forall a l,
+  get_headings a = Ok l <->
+  exists pars ps,
+    document_pars a heading_opts = Ok pars
+    /\ iter_at_depth pars 4%nat = Ok (map RA ps)
+    /\ mapM (par_run_strings true) (filter is_heading ps) = Ok l.
+Proof.
+  intros a l. rewrite get_headings_unfold. split.
+  - intros H. apply bind_inv in H. destruct H as (pars & Ep & H).
+    apply bind_inv in H. destruct H as (its & Ei & H).
+    apply heading_fold in H. destruct H as (ps & l' & -> & Em & ->).
+    exists pars, ps. repeat split; assumption.
+  - intros (pars & ps & Ep & Ei & Em). rewrite Ep. cbn [bind]. rewrite Ei. cbn [bind].
+    apply heading_fold. exists ps, l. repeat split. exact Em.
+Qed.
+
+(* element-wise reading: as many entries as heading records, entry i is the
+   run strings of the i-th heading record *)
+Corollary get_headings_pointwise : forall a l, get_headings a = Ok l ->
+  exists pars ps,
+    document_pars a heading_opts = Ok pars
+    /\ iter_at_depth pars 4%nat = Ok (map RA ps)
+    /\ Forall2 (fun p rs => par_run_strings true p = Ok rs) (filter is_heading ps) l
+    /\ (forall p, In p (filter is_heading ps) <-> In p ps /\ heading_match (p_style p) = true).
+Proof.
+  intros a l H. apply get_headings_spec in H. destruct H as (pars & ps & Ep & Ei & Em).
+  exists pars, ps. split; [exact Ep|]. split; [exact Ei|]. split.
+  - apply mapM_Forall2. exact Em.
+  - intros p. unfold is_heading. apply (filter_In (fun p => heading_match (p_style p))).
+Qed.
+
+(* no record with a heading style: the empty list; records that do not match
+   are never asked for their run strings *)
+Corollary get_headings_none : forall a pars ps,
+  document_pars a heading_opts = Ok pars -> iter_at_depth pars 4%nat = Ok (map RA ps) ->
+  (forall p, In p ps -> heading_match (p_style p) = false) ->
+  get_headings a = Ok [].
+Proof.
+  intros a pars ps Ep Ei H. apply get_headings_spec. exists pars, ps.
+  split; [exact Ep|]. split; [exact Ei|].
+  replace (filter is_heading ps) with (@nil par); [reflexivity|].
+  symmetry. clear Ei. induction ps as [|p ps IH]; [reflexivity|]. cbn [filter].
+  unfold is_heading at 1. rewrite (H p (or_introl eq_refl)). apply IH.
+  intros p' Hin. apply H. right. exact Hin.
+Qed.
+
+(* ================================================================== *)
+Print Assumptions link_match_spec.
+Print Assumptions link_match_tail.
+Print Assumptions link_match_rendered_link_gen.
+Print Assumptions link_match_rendered_link.
+Print Assumptions link_match_none_bracket.
+Print Assumptions link_match_none_quote.
+Print Assumptions link_match_bracket_exact.
+Print Assumptions link_match_bracket_none.
+Print Assumptions link_match_plain_text.
+Print Assumptions link_match_no_angle.
+Print Assumptions link_match_escaped_text.
+Print Assumptions heading_match_spec.
+Print Assumptions is_unicode_digit_spec.
+Print Assumptions heading_match_ascii.
+Print Assumptions is_unicode_digit_ascii_true.
+Print Assumptions is_unicode_digit_ascii_false.
+Print Assumptions heading_match_ascii_style.
+Print Assumptions get_links_complete.
+Print Assumptions get_links_iff.
+Print Assumptions get_links_err.
+Print Assumptions get_links_sound.
+Print Assumptions get_links_order.
+Print Assumptions get_links_no_angle.
+Print Assumptions iter_at_depth_items.
+Print Assumptions items_succ.
+Print Assumptions gps_leaves.
+Print Assumptions get_links_of_pars.
+Print Assumptions get_links_yields_link.
+Print Assumptions get_links_pairs_clean.
+Print Assumptions get_headings_spec.
+Print Assumptions get_headings_pointwise.
+Print Assumptions get_headings_none.
+
+(* non-trivial inputs satisfying the hypotheses of link_match_rendered_link /
+   get_links_yields_link *)
+Example ex_rendered_link :
+  let link := [104; 116; 116; 112; 58; 47; 47; 120] in         (* http://x *)
+  let body := [TTxt 97; TRaw 32; TTxt 62; TTxt 98] in           (* "a >b" *)
+  (link <> [] /\ ~ In 34 link /\ forallb chr_tok body = true
+   /\ render false body <> [] /\ ~ In 60 (render false body))
+  /\ link_match (render false (link_toks link body)) = Some (link, [97; 32; 62; 98]).
+Proof.
+  cbv zeta. split; [|vm_compute; reflexivity].
+  split; [discriminate|]. split; [|split; [reflexivity|split; [discriminate|]]];
+    vm_compute; intros H;
+    repeat (destruct H as [H|H]; [discriminate H|]); exact H.
+Qed.
